@@ -716,6 +716,110 @@ pub fn c19_references() {
         check!(!matches!(again, Err(ExecutionError::UndeclaredReference(_))), "with every reported name defined, execution does not fail with an undeclared reference");
     }
 }
+/// `l + r` on lists and strings whose allocations are shared or not (C14: order, additivity, operands intact).
+pub fn c14_concat() {
+    let (kind, nl, nr, alias, sl, sr): (u8, u8, u8, u8, u8, u8) = (any(), any(), any(), any(), any(), any());
+    crate::sym::assume(kind <= 1 && nl <= 3 && nr <= 3 && alias <= 1 && (1..=4).contains(&sl) && (1..=4).contains(&sr));
+    let elems = |side: i64, n: u8| -> Vec<Value> { (0..n as i64).map(|j| Value::Int(side * 10 + j)).collect() };
+    let text = |side: char, n: u8| -> String { (0..n).map(|j| if side == 'l' { ['a', 'é', 'c'][j as usize] } else { ['x', 'y', 'ü'][j as usize] }).collect() };
+    let mk = |side: i64, n: u8| -> Value {
+        if kind == 0 {
+            Value::List(Arc::new(elems(side, n)))
+        } else {
+            Value::String(Arc::new(text(if side == 1 { 'l' } else { 'r' }, n)))
+        }
+    };
+    let l = mk(1, nl);
+    let r = if alias == 1 { l.clone() } else { mk(2, nr) };
+    // other holders of the same allocations (variables, earlier results)
+    let handles_l = if alias == 1 { 2 } else { 1 };
+    let keep_l: Vec<Value> = (handles_l..sl.max(handles_l)).map(|_| l.clone()).collect();
+    let keep_r: Vec<Value> = if alias == 1 { vec![] } else { (1..sr).map(|_| r.clone()).collect() };
+    let (l0, r0) = (mk(1, nl), if alias == 1 { mk(1, nl) } else { mk(2, nr) });
+    let got = l + r;
+    let want = match (&l0, &r0) {
+        (Value::List(a), Value::List(b)) => Value::List(Arc::new(a.iter().chain(b.iter()).cloned().collect())),
+        (Value::String(a), Value::String(b)) => Value::String(Arc::new(format!("{}{}", a, b))),
+        _ => unreachable!(),
+    };
+    check!(got == Ok(want), "l + r is the left operand's elements followed by the right's");
+    for k in keep_l.iter() {
+        check!(*k == l0, "a left operand that is still referenced elsewhere is intact");
+    }
+    for k in keep_r.iter() {
+        check!(*k == r0, "a right operand that is still referenced elsewhere is intact");
+    }
+}
+pub fn c02_concat() {
+    c14_concat()
+}
+/// Field selection `x.field` and presence test `has(x.field)` (C14: the ways of asking agree; C02: no panic).
+pub fn c14_select() {
+    use cel_interpreter::objects::{Key, Map};
+    let (test, lk, cfg, hf): (u8, u8, u8, u8) = (any(), any(), any(), any());
+    crate::sym::assume(test <= 1 && lk <= 5 && cfg <= 7 && hf <= 1);
+    let skey = |s: &str| Key::String(Arc::new(s.to_string()));
+    let cfgs: [Vec<Key>; 8] = [
+        vec![],
+        vec![skey("field")],
+        vec![skey("other")],
+        vec![skey("field"), skey("other")],
+        vec![skey("other"), skey("field")],
+        vec![Key::Int(1)],
+        vec![Key::Bool(true), skey("other")],
+        vec![Key::Int(1), skey("field")],
+    ];
+    let left: Option<Value> = match lk {
+        0 => None,
+        1 => Some(Value::Int(7)),
+        2 => Some(Value::Null),
+        3 => Some(Value::String(Arc::new("field".to_string()))),
+        4 => Some(Value::List(Arc::new(vec![Value::Int(1)]))),
+        _ => {
+            let mut m = std::collections::HashMap::new();
+            for (j, k) in cfgs[cfg as usize].iter().enumerate() {
+                m.insert(k.clone(), Value::Int(100 + j as i64));
+            }
+            Some(Value::Map(Map { map: Arc::new(m) }))
+        }
+    };
+    let mut ctx = Context::default();
+    if let Some(v) = &left {
+        ctx.add_variable_from_value("x", v.clone());
+    }
+    if hf == 1 {
+        ctx.add_function("field", || -> i64 { 0 });
+    }
+    let src = if test == 1 { "has(x.field)" } else { "x.field" };
+    let got = Program::compile(src).expect("compiles").execute(&ctx);
+    let Some(left) = left else {
+        check!(matches!(&got, Err(ExecutionError::UndeclaredReference(n)) if n.as_str() == "x"), "a failing operand is the result");
+        return;
+    };
+    let entry = match &left {
+        Value::Map(m) => m.get(&skey("field")).cloned(),
+        _ => None,
+    };
+    // the other ways of asking about the key must agree with has()
+    if let Value::Map(_) = &left {
+        let by_in = Program::compile("'field' in x").unwrap().execute(&ctx);
+        let by_index = Program::compile("x['field']").unwrap().execute(&ctx);
+        check!(by_in == Ok(Value::Bool(entry.is_some())), "'field' in x agrees with the map's contents");
+        check!(by_index == Ok(entry.clone().unwrap_or(Value::Null)), "x['field'] agrees with the map's contents");
+    }
+    if test == 1 {
+        check!(got == Ok(Value::Bool(entry.is_some())), "has(x.field) is exactly the presence of the key");
+    } else if let Some(v) = entry {
+        check!(got == Ok(v), "x.field is the entry");
+    } else if hf == 1 {
+        check!(matches!(&got, Ok(Value::Function(n, Some(t))) if n.as_str() == "field" && **t == left), "x.field without such a key is the bound method");
+    } else {
+        check!(matches!(&got, Err(ExecutionError::NoSuchKey(n)) if n.as_str() == "field"), "x.field without such a key or function is NoSuchKey");
+    }
+}
+pub fn c02_select() {
+    c14_select()
+}
 /// Index `a[b]` and membership `a in b` over values of every kind (C14 access half, C02: no panic).
 pub fn c14_access() {
     use cel_interpreter::objects::{Key, Map};
@@ -874,6 +978,10 @@ crate::replay_only! {
     #[kani::unwind(2)] c11_unsupported_nodes: "off", "same body", "same";
     #[kani::unwind(2)] c10_unsupported_nodes: "off", "same body", "same";
     #[kani::unwind(2)] c19_unsupported_nodes: "off", "same body", "same";
+    #[kani::unwind(2)] c14_concat: "off", "Value + Value on lists / strings with controlled Arc sharing", "lengths 0-3, reference counts 1-4, x + x";
+    #[kani::unwind(2)] c02_concat: "off", "same body", "same";
+    #[kani::unwind(2)] c14_select: "off", "x.field / has(x.field) through Program::compile + execute, against the map's contents and the other ways of asking", "six operand kinds, eight maps, function declared or not";
+    #[kani::unwind(2)] c02_select: "off", "same body", "same";
     #[kani::unwind(2)] c14_literal: "off", "same body (C14)", "same";
     #[kani::unwind(2)] c07_extractor_eval: "off", "same body (C07)", "same";
     #[kani::unwind(2)] c08_unary_minus: "off", "Program::compile + Value::resolve NEGATE arm", "i: all i64";
